@@ -419,7 +419,7 @@ func lenClass2(n int) string {
 
 func runC18(c *ev.Ctx) {
 	r := c.Rand("c18")
-	rounds := c.Sz(8, 80)
+	rounds := c.Sz(8, 600)
 	for round := 0; round < rounds; round++ {
 		if !c.Mine(round) {
 			continue
